@@ -57,7 +57,7 @@ impl From<&Path> for FilePath {
     }
 }
 
-#[derive(Debug, Default)]
+#[derive(Debug, Default, Clone)]
 pub struct FileSet {
     path_to_id: HashMap<FilePath, FileId>,
     id_to_path: HashMap<FileId, FilePath>,
